@@ -1,14 +1,20 @@
 // C04 — Merkle proofs are sound, complete and proof verification never crashes.
 // Monitor shape: reference model + hostile inputs. Real tries (structured keys, dirty / committed / recreated)
 // and, for 32-byte addresses, the path the REST API uses (AccountsDB.GetTrie(root).VerifyProof).
-//   completeness: GetProof(k) of every present key succeeds and VerifyProof(k, proof) is true;
-//   soundness:    VerifyProof(key, proof) == true  =>  key is present in the model of that root;
-//   crash-freedom: no VerifyProof call may panic, whatever key and proof bytes are supplied.
+//
+//	completeness: GetProof(k) of every present key succeeds and VerifyProof(k, proof) is true;
+//	soundness:    VerifyProof(key, proof) == true  =>  key is present in the model of that root;
+//	crash-freedom: no VerifyProof call may panic, whatever key and proof bytes are supplied.
+//
 // Witness classes (violation keys):
-//   "absent-key-accepted class=<relation of the accepted key to the key the proof was generated for>[ proof=<kind>]"
-//   "panic class=<relation>[ proof=<kind>][ frame=<top frame>]"   ("panic class=short-key" is the slice-bounds crash in
-//                                                                   extensionNode.getNextHashAndKey for keys shorter than the extension)
-//   "own-proof-rejected", "getproof-error", "panic-getproof"
+//
+//	"absent-key-accepted class=<relation of the accepted key to the key the proof was generated for>[ proof=<kind>]"
+//	"panic class=<relation>[ proof=<kind>][ frame=<top frame>]"   ("panic class=short-key" is the slice-bounds crash in
+//	                                                                extensionNode.getNextHashAndKey for keys shorter than the extension)
+//	"own-proof-rejected[ verifier=same-content-instance|changed-and-restored|same-content-instance+changed-and-restored]" (verifiers.go),
+//	"getproof-error", "panic-getproof"
+//	API phase (api.go): "api-own-proof-rejected", "api-absent-address-accepted", "api-root-never-current",
+//	"api-getproof-error call=<getter>", "api-panic call=<call> frame=<top frame>"
 package main
 
 import (
@@ -120,6 +126,10 @@ type battery struct {
 	only32  bool
 	setup   map[string]interface{}
 	perTrie int
+	// verifier-side variety (verifiers.go): verKind "" = the verifier as built by the route; otherwise the witness-class suffix
+	verKind string
+	root    []byte       // root hash of gen when the proofs are generated (nil: not tracked)
+	perturb func() error // run between GetProof and the verification of the own proof: changes ver and restores its content
 }
 
 func (b *battery) verify(base, tested []byte, proof [][]byte, keyCat, proofKind string, segKinds string) {
@@ -173,7 +183,17 @@ func (b *battery) verify(base, tested []byte, proof [][]byte, keyCat, proofKind 
 	}
 	if keyCat == "own" && proofKind == "genuine" {
 		if !ok {
-			r.Violation(b.c.Idx, "own-proof-rejected", fmt.Sprintf("key %x is present, GetProof succeeded, VerifyProof returned false (err %v), route %s", tested, verr, b.route), detail())
+			key := "own-proof-rejected"
+			if b.verKind != "" {
+				// the verifier is another instance / was changed and restored: the claim needs its root to be the root the proof was made for
+				if vr, rerr := b.ver.RootHash(); rerr != nil || !bytes.Equal(vr, b.root) {
+					r.Count("verifier_root_differs_from_prover_root", 1)
+					return
+				}
+				key += " verifier=" + b.verKind
+			}
+			r.Count("witness ["+key+"] route="+b.route, 1)
+			r.Violation(b.c.Idx, key, fmt.Sprintf("key %x is present, GetProof succeeded, VerifyProof returned false (err %v), route %s, verifier %q", tested, verr, b.route, b.verKind), detail())
 		} else {
 			r.Count("own_proofs_accepted", 1)
 		}
@@ -221,6 +241,12 @@ func (b *battery) run() {
 		path := triegen.HexPath(k)
 
 		// --- completeness
+		if b.perturb != nil {
+			if perr2 := b.perturb(); perr2 != nil {
+				r.Inconclusive("changing and restoring the verifier trie: " + perr2.Error())
+				return
+			}
+		}
 		b.verify(k, k, proof, "own", "genuine", sk)
 
 		// --- adversarial keys with the genuine proof
@@ -424,14 +450,25 @@ func main() {
 		"absent keys with the genuine proof (one nibble changed inside every extension / branch slot / leaf remainder on the path, proper suffixes and prefixes, keys ending inside an extension, " +
 		"empty key, longer keys, random keys, other present keys, proofs of other keys, glued chains); hostile proofs (prefix, suffix, reordered, bit flip, truncated entry, type byte, nil/empty entry, " +
 		"random bytes, garbage appended, duplicated entries, structured malformed node bodies, empty/nil proof) for the present key and an absent neighbour. " +
-		"Every verification is one evaluation; shape signature = route | key category | proof kind | node kinds on the proof path (E extension, B branch, L leaf).")
+		"Verifier-side variety (6 of 8 tries, verifiers.go): the verifying trie is the one built by the route, or a second instance filled with the same pairs in another order on which no " +
+		"RootHash/Commit/GetProof ran before VerifyProof (its root is checked on a third, identically filled trie), optionally hashed or committed, and in half of the tries changed and changed back " +
+		"between GetProof and VerifyProof (value overwritten+rewritten, absent key inserted+deleted, present key deleted+re-inserted). " +
+		"API phase (api.go, extra cases): real nodeFacade over real AccountsDB, blockchain holder and node address codec; blocks (account changes + Commit + SetCurrentBlockHeader) are committed between " +
+		"requests and, through a decorator of AccountsDB.GetTrie, while a request is served; GetProofCurrentRootHash / GetProof(current or historical root) / VerifyProof for present addresses, absent " +
+		"addresses and addresses created by later blocks; the (proof, root hash) pair returned by one call must verify. " +
+		"Every verification is one evaluation; shape signature = route | key category | proof kind | node kinds on the proof path (E extension, B branch, L leaf); api|call|origin|presence|block committed during the call|result.")
 	r.Assume("the model of a root is the set of keys written to the trie (validated separately by C01)",
 		"node kinds on the path are computed from the key set (canonical trie), used only to build adversarial keys and to classify witnesses",
 		"blake2b collision resistance: a forged node cannot hash to a wanted hash")
 	r.MinShapes(100)
 
 	nCases := r.N(300, 8000)
-	r.Parallel(nCases, func(c *vk.Case) {
+	nAPI := r.N(60, 1500)
+	r.Parallel(nCases+nAPI, func(c *vk.Case) {
+		if c.Idx >= nCases {
+			apiCase(r, c) // api.go
+			return
+		}
 		rng := c.Rng
 		level := triegen.Levels[rng.Intn(len(triegen.Levels))]
 		env, err := triegen.NewEnv(level)
@@ -483,6 +520,19 @@ func main() {
 			r.Count("tries_accountsdb", 1)
 			b := &battery{r: r, c: c, route: "accountsdb", gen: gen, ver: ver, model: model, keys: sortKeys(model), only32: true, perTrie: 8,
 				setup: map[string]interface{}{"route": "AccountsDB.GetTrie(root)", "level": level, "root": vk.Hex(root), "accounts": len(addrs)}}
+			vals := map[string][]byte{}
+			for _, a := range b.keys {
+				v, verr2 := gen.Get(cp(a))
+				if verr2 != nil || len(v) == 0 {
+					r.Inconclusive(fmt.Sprintf("AccountsDB.GetTrie(%x).Get(%x) of a committed account: %d bytes, err %v", root, a, len(v), verr2))
+					return
+				}
+				vals[string(a)] = cp(v)
+			}
+			if derr := dressVerifier(r, rng, env, b, vals); derr != nil {
+				r.Inconclusive(derr.Error())
+				return
+			}
 			b.run()
 			return
 		}
@@ -496,12 +546,15 @@ func main() {
 		}
 		tr := env.Trie
 		model := map[string]bool{}
+		vals := map[string][]byte{}
 		for _, k := range pool {
-			if uerr := tr.Update(cp(k), triegen.Value(rng)); uerr != nil {
+			v := triegen.Value(rng)
+			if uerr := tr.Update(cp(k), cp(v)); uerr != nil {
 				r.Inconclusive("Update: " + uerr.Error())
 				return
 			}
 			model[string(k)] = true
+			vals[string(k)] = v
 		}
 		if c.Idx != 0 && len(pool) > 3 {
 			for i := 0; i < rng.Intn(len(pool)/3+1); i++ {
@@ -511,6 +564,7 @@ func main() {
 					return
 				}
 				delete(model, string(k))
+				delete(vals, string(k))
 			}
 		}
 		mode := rng.Intn(4)
@@ -552,6 +606,10 @@ func main() {
 			r.Trivial()
 		}
 		b := &battery{r: r, c: c, route: "trie", gen: gen, ver: ver, model: model, keys: keys, perTrie: 8, setup: setup}
+		if derr := dressVerifier(r, rng, env, b, vals); derr != nil {
+			r.Inconclusive(derr.Error())
+			return
+		}
 		b.run()
 		if r.NeedSample() && c.Idx < 40 && len(keys) >= 2 {
 			var ks []string
@@ -566,6 +624,12 @@ func main() {
 	})
 	if r.Counter("own_proofs_accepted") == 0 && r.Violations() == 0 {
 		r.Inconclusive("no own proof was verified")
+	}
+	if r.Violations() == 0 && (r.Counter("api_current_pairs_checked_with_block_committed_during_request") == 0 || r.Counter("api_own_proofs_accepted") == 0) {
+		r.Inconclusive("the API phase never checked a (proof, root hash) pair returned while a block was being committed")
+	}
+	if r.Violations() == 0 && (r.Counter("verifier twin-never-hashed") == 0 || r.Counter("verifier_change overwrite+rewrite") == 0) {
+		r.Inconclusive("no proof was verified on a never-hashed second instance / on a changed-and-restored trie")
 	}
 	r.Finish()
 }
